@@ -67,6 +67,17 @@ theorem delay_bounds (tries base max r : Nat) :
 theorem delay_le_max (tries base max r : Nat) : delayMs tries base max r ≤ max := by
   unfold delayMs; exact Nat.min_le_right _ _
 
+/-- Every sleep of every run is within the documented bounds, whatever the failed responses carry: the `i`-th sleep (after the
+`i+1`-th failure) lies in `[min(ceiling/2, max), min(ceiling, max)]` with `ceiling = 1000·2^min(i+1, 30)` and `max = 60 000` ms —
+for ALL scripts, all exceptions (rate-limit responses with a `Retry-After: 300` header included: the header is not an input of
+the delay) and all random draws. -/
+theorem every_sleep_within_bounds (script : List Attempt) (i d : Nat)
+    (h : (retryTransientErrors script).sleeps[i]? = some d) :
+    min (defaultBase * 2 ^ (min (i + 1) 30) / 2) defaultMax ≤ d ∧ d ≤ min (defaultBase * 2 ^ (min (i + 1) 30)) defaultMax ∧
+      d ≤ defaultMax := by
+  have hb := loop_sleeps_bounded script 0 [] rfl (by intro j x hx; simp at hx) i d (by simpa [retryTransientErrors] using h)
+  exact ⟨hb.1, hb.2, Nat.le_trans hb.2 (Nat.min_le_right _ _)⟩
+
 /-- Retry until success: for ANY finite list of transient / rate-limit failures followed by a success, the loop returns that
 success after exactly that many sleeps (one call more than failures), each sleep being `delayMs` of its try number. -/
 theorem retries_until_success (fails : List (Exc × Nat)) (h : ∀ p ∈ fails, isTransient p.1 = true ∨ isRateLimit p.1 = true)
@@ -79,7 +90,8 @@ theorem retries_until_success (fails : List (Exc × Nat)) (h : ∀ p ∈ fails, 
 
 /-! ## non-vacuity: concrete exceptions in every class, the overlaps the branch order decides, and runs of the loop -/
 
-def plain : Desc := ⟨none, none, false, false, false, false, false, false, false, false, false, none, false, false, false, false⟩
+def plain : Desc :=
+  ⟨none, none, false, false, false, false, false, false, false, false, false, none, false, false, false, false, none⟩
 
 /-- `ConnectionResetError()` without errno: limited only -/
 def connResetNoErrno : Exc := .mk { plain with osErrno := some none, connReset := true } .nil .nil
@@ -89,6 +101,8 @@ def connReset104 : Exc := .mk { plain with osErrno := some (some 104), connReset
 def httpx403RateLimit : Exc := .mk { plain with aiohttpStatus := some 403, httpxStatus := some 403, bodyRateLimit := true } .nil .nil
 /-- `hailtop.httpx.ClientResponseError(status=400, body='Invalid grant: account not found')`: limited only -/
 def httpx400RetryOnce : Exc := .mk { plain with aiohttpStatus := some 400, httpxStatus := some 400, bodyRetryOnce := true } .nil .nil
+/-- `aiohttp.ClientResponseError(status=429, headers={'Retry-After': '300'})`: rate limit; the header changes nothing -/
+def tooManyRetryAfter300 : Exc := .mk { plain with aiohttpStatus := some 429, retryAfter := some 300 } .nil .nil
 /-- `ValueError('x')` -/
 def valueError : Exc := .mk plain .nil .nil
 /-- `RuntimeError('wrapped')` raised `from` `OSError(EPIPE)`: transient through `__cause__` -/
@@ -114,6 +128,9 @@ example : retryTransientErrors (List.replicate 7 (.fail connReset104 0) ++ [.ok 
 -- five transient failures use up the allowance: a limited-only error on the sixth try is raised at once
 example : retryTransientErrors (List.replicate 5 (.fail wrappedEpipe 0) ++ [.fail connResetNoErrno 0, .ok 1])
     = .raised connResetNoErrno 6 [1000, 2000, 4000, 8000, 16000] := by decide
+-- a 429 that asks for 300 s: the waits are the ordinary jittered back-off, never 300 000 ms
+example : retryTransientErrors (List.replicate 3 (.fail tooManyRetryAfter300 999) ++ [.ok 1])
+    = .returned 1 4 [1999, 2999, 4999] := by decide
 -- a permanent error is raised by the first call, no sleep
 example : retryTransientErrors [.fail valueError 3, .ok 1] = .raised valueError 1 [] := by decide
 -- jitter: draw r ↦ r % (ceiling/2 + 1); tries = 1: ceiling 2000, delay in [1000, 2000]
